@@ -7,6 +7,7 @@ import Cppcms.C12.EndToEnd
 import Cppcms.C12.Events
 import Cppcms.C12.Readback
 import Cppcms.C12.Accept
+import Cppcms.C12.FileBuffer
 /-!
 # C12 property theorems
 
@@ -710,5 +711,152 @@ theorem delivery_reads_back_exactly (memLimit : Nat) (reader : Bool) (parts : Li
 example : readBackFrom 3 ([255, 1, 2, 3] ++ List.replicate 1020 7 ++ [255, 255]) 0
     = [255, 1, 2, 3] ++ List.replicate 1020 7 ++ [255, 255] := by
   rw [readback_exact]; rfl
+
+/-! ## the peer's quoting: header parameters and the boundary parameter -/
+
+/-- **unquote_quote_roundtrip**: `protocol::unquote` inverts the peer's quoted-string writer
+(`"` and `\` backslash-escaped, RFC 2616 §2.2) for every byte string, and leaves the text after
+the closing quote untouched. -/
+theorem unquote_quote_roundtrip (s t : Bytes) : unquote (Spec.quote s ++ t) = some (s, t) :=
+  unquote_quote s t
+
+/-- **parse_pair_roundtrip**: one `; key="value"` parameter of a Content-Disposition header
+(`parse_pair`) and of a Content-Type header (`content_type::parse`) yields exactly key, value
+and the remaining text — any bytes in the value. -/
+theorem parse_pair_roundtrip (key v t : Bytes) (hk : key ≠ []) (hkt : ∀ x ∈ key, tokenChar x = true) :
+    parsePair (59 :: 32 :: (key ++ 61 :: (Spec.quote v ++ t))) = some (key, v, t)
+    ∧ parsePairG true (59 :: 32 :: (key ++ 61 :: (Spec.quote v ++ t))) = some (key, v, t) :=
+  ⟨parsePair_quoted key v t hk hkt, parsePairG_true_quoted key v t hk hkt⟩
+
+/-- **content_type_boundary_roundtrip**: `Content-Type: multipart/form-data; boundary=…` is
+recognised as multipart and yields the boundary string `CRLF--bkey`, for a token boundary
+written as is and for *any* non-empty boundary written as a quoted-string. -/
+theorem content_type_boundary_roundtrip (bkey : Bytes) (hne : bkey ≠ []) :
+    ((∀ c ∈ bkey, tokenChar c = true) →
+      mediaType (litMultipartCT ++ bkey) = ctMultipart ∧ mkBoundary (litMultipartCT ++ bkey) = some (Spec.delimiter bkey))
+    ∧ (mediaType (litMultipartCT ++ Spec.quote bkey) = ctMultipart
+        ∧ mkBoundary (litMultipartCT ++ Spec.quote bkey) = some (Spec.delimiter bkey)) :=
+  ⟨fun htok => boundary_of_content_type bkey hne htok, boundary_of_content_type_quoted bkey hne⟩
+
+/-- `request_roundtrip` with the boundary sent as a quoted-string (any bytes but CR) -/
+theorem request_roundtrip_quoted_boundary (lim : Limits) (bkey : Bytes) (hk : Spec.WFbkey bkey)
+    (hdisk : lim.diskOk = true) (ps : List Part) (hwf : Spec.WFparts bkey ps)
+    (hsz : ∀ p ∈ ps, p.mime = [] → p.data.length ≤ lim.contentLimit) (cs : List Bytes)
+    (hcs : Spec.IsChunking cs (Spec.encode bkey ps)) (hlim : cs.flatten.length ≤ lim.multipartLimit) :
+    request lim (litMultipartCT ++ Spec.quote bkey) cs.flatten.length cs = .handled (deliver ps).1 (deliver ps).2 := by
+  obtain ⟨hmt, hbd⟩ := boundary_of_content_type_quoted bkey hk.1
+  have hpos : cs.flatten.length ≠ 0 := by
+    rw [hcs]
+    cases ps <;> simp [Spec.encode, Spec.encodeWith, Spec.dashes, Spec.crlf]
+  have hgt : ¬ cs.flatten.length > lim.multipartLimit := by omega
+  have hstart : start lim (litMultipartCT ++ Spec.quote bkey) cs.flatten.length =
+      .ok (.multipart { boundary := Spec.delimiter bkey, memLimit := lim.memLimit, diskOk := lim.diskOk, fieldLimit := lim.contentLimit }) := by
+    unfold start
+    rw [if_neg hpos, hmt, hbd]
+    simp only [beq_self_eq_true, if_true, hgt, if_false]
+  unfold request
+  rw [hstart]
+  simp only
+  rw [multipart_roundtrip_parts _ bkey rfl hk hdisk ps hwf hsz cs hcs]
+
+example : unquote (Spec.quote [97, 34, 92, 92] ++ [59]) = some ([97, 34, 92, 92], [59]) := unquote_quote_roundtrip _ _
+
+/-! ## file_buffer: put area, spill, temporary files -/
+
+/-- **fb_invariant**: after any sequence of accepted writes to a fresh `file_buffer` — over the
+regenerated `overflow()` — the put area never holds more than its capacity (no write past
+`epptr()`), and while the buffer is in memory its capacity, hence the memory it holds, is at most
+`limit` (`file_in_memory_limit`). -/
+theorem fb_invariant (diskOk : Bool) (limit : Nat) (ws : List Bytes) (fb : FB)
+    (h : (FB.fresh limit).writes diskOk ws = some fb) :
+    fb.buf.length ≤ fb.cap ∧ (fb.inMem = true → fb.cap ≤ limit ∧ fb.size ≤ limit) := by
+  have hf := FB.fresh_inv limit
+  have hmem : diskOk = false → (FB.fresh limit).inMem = true := fun _ => rfl
+  have hsz : (FB.fresh limit).size = 0 := rfl
+  have hlim : (FB.fresh limit).limit = limit := rfl
+  obtain ⟨hok, hfail⟩ := FB.writes_spec diskOk ws (FB.fresh limit) hf hmem
+  generalize ws.flatten.length = n at hok hfail
+  rw [hsz, hlim, Nat.zero_add] at hok hfail
+  by_cases hc : diskOk = true ∨ n ≤ limit
+  · obtain ⟨fb', hs, hinv, _, hl⟩ := hok hc
+    rw [hs] at h; cases h
+    refine ⟨hinv.1, fun hm => ⟨by rw [← hl]; exact (hinv.2.1 hm).1, ?_⟩⟩
+    have := (FB.inMem_iff fb hinv).mp hm
+    rw [hl] at this; exact this
+  · have hd : diskOk = false := by cases diskOk <;> simp_all
+    have hgt : limit < n := by
+      have : ¬ n ≤ limit := fun h => hc (Or.inr h)
+      omega
+    rw [hfail hd hgt] at h; cases h
+
+/-- **spills_iff_exceeds_limit**: with a working disk every write is accepted, the content is
+exactly what was written, and the buffer has spilled to its temporary file iff more than
+`limit` bytes were written. -/
+theorem spills_iff_exceeds_limit (limit : Nat) (ws : List Bytes) :
+    ∃ fb, (FB.fresh limit).writes true ws = some fb ∧ fb.content = ws.flatten
+      ∧ (fb.inMem = false ↔ limit < ws.flatten.length) := by
+  obtain ⟨hok, _⟩ := FB.writes_spec true ws (FB.fresh limit) (FB.fresh_inv limit) (fun h => by cases h)
+  obtain ⟨fb, hs, hinv, hc, hl⟩ := hok (Or.inl rfl)
+  have hc0 : (FB.fresh limit).content = [] := rfl
+  rw [hc0, List.nil_append] at hc
+  refine ⟨fb, hs, hc, ?_⟩
+  have hiff := FB.inMem_iff fb hinv
+  have hsz : fb.size = ws.flatten.length := by rw [FB.size_content, hc]
+  have hlim : fb.limit = limit := hl
+  rw [hsz, hlim] at hiff
+  generalize ws.flatten.length = n at hiff ⊢
+  cases hm : fb.inMem with
+  | true =>
+    have := hiff.mp hm
+    constructor
+    · intro h; cases h
+    · intro h; omega
+  | false =>
+    constructor
+    · intro _
+      by_cases hle : n ≤ limit
+      · have := hiff.mpr hle; rw [hm] at this; cases this
+      · omega
+    · intro _; rfl
+
+/-- **file_write_agrees**: the parser model's abstraction of the part buffer (`fileWrite`: a write
+fails only when the buffer has to spill and the disk does not work) is exactly what the
+`overflow()`-level model does: same acceptance, same content. -/
+theorem file_write_agrees (diskOk : Bool) (limit : Nat) (ws : List Bytes) :
+    ((FB.fresh limit).writes diskOk ws).map FB.content
+      = (fwrites { boundary := [], memLimit := limit, diskOk := diskOk } [] ws).map List.reverse := by
+  have hf := FB.fresh_inv limit
+  have hmem : diskOk = false → (FB.fresh limit).inMem = true := fun _ => rfl
+  have hsz : (FB.fresh limit).size = 0 := rfl
+  have hlim : (FB.fresh limit).limit = limit := rfl
+  have hc0 : (FB.fresh limit).content = [] := rfl
+  obtain ⟨hok, hfail⟩ := FB.writes_spec diskOk ws (FB.fresh limit) hf hmem
+  have hfw := fwrites_spec { boundary := [], memLimit := limit, diskOk := diskOk } ws [] (Or.inr (Nat.zero_le _))
+  rw [hfw]
+  simp only [List.length_nil, Nat.zero_add, List.append_nil]
+  rw [hsz, hlim, Nat.zero_add, hc0] at hok
+  rw [hsz, hlim, Nat.zero_add] at hfail
+  generalize ws.flatten.length = n at hok hfail ⊢
+  by_cases hc : diskOk = true ∨ n ≤ limit
+  · obtain ⟨fb', hs, _, hcont, _⟩ := hok hc
+    rw [hs, if_pos hc]
+    simp [hcont]
+  · have hd : diskOk = false := by cases diskOk <;> simp_all
+    have hgt : limit < n := by
+      have : ¬ n ≤ limit := fun h => hc (Or.inr h)
+      omega
+    rw [hfail hd hgt, if_neg hc]
+    rfl
+
+/-- **temp_files_released**: a part created by the parser (`file_temporary_ = 1`, `removed_ = 0`)
+leaves no temporary file behind once `file::close()` has run — and `~file` runs it for every part
+of a request, completed or in progress, when the request is destroyed (the parser's `files_`,
+`file_` and `request::files_` own them).  A part made permanent by the application
+(`output_file(name,false)`/`make_permanent`) keeps its file, as intended.  Tie: the upload
+directory is listed after every case of the correspondence run. -/
+theorem temp_files_released :
+    (∀ spilled, tempLeftAfterClose spilled false true = false)
+    ∧ tempLeftAfterClose true false false = true := by
+  decide
 
 end Cppcms.C12.Props
